@@ -474,9 +474,12 @@ pub fn encode_with_dist_header_multi(terms: &[&OwnedTerm]) -> Result<Vec<u8>, En
         buf.put_u8(0);
     }
 
+    // The header flags follow the last reference's 4-bit field: low nibble of the last byte
+    // for an even number of references, high nibble for an odd one.
     let long_atoms = atoms.iter().any(|a| a.name.len() > 255);
     if long_atoms {
-        buf[flags_start_pos + flags_len - 1] |= 0x01;
+        let long_atoms_bit = if atoms.len() % 2 == 0 { 0x01 } else { 0x10 };
+        buf[flags_start_pos + flags_len - 1] |= long_atoms_bit;
     }
 
     for (index, atom) in atoms.iter().enumerate() {
